@@ -81,7 +81,7 @@ func (g *Gen) wireImage() []byte {
 		region = g.tlvRegion(g.Intn(4))
 	}
 	// damage the region sometimes
-	switch g.Intn(10) {
+	switch g.Intn(20) {
 	case 0:
 		if len(region) >= 2 {
 			region[1] = byte(g.Pick(0, 1)) // length < 2 in the first TLV
@@ -105,7 +105,7 @@ func (g *Gen) wireImage() []byte {
 	h[1] = byte(g.Intn(256))
 	copy(h[4:], g.Bytes(16))
 	length := total
-	switch g.Intn(12) {
+	switch g.Intn(24) {
 	case 0:
 		length = total - 1
 	case 1:
